@@ -243,6 +243,8 @@ def check_C04(tier, seed):
     for inst, o in zip(insts, obs):
         hs = [{"kind": h["kind"], "vid": h["vid"], "prop": h["prop"], "cand": h["cand"], "src": h.get("src", 0), "eid": int(h["site"].split(":")[1]) if h["site"].startswith("nbrs:") else 0}
               for h in o.get("prune", {}).get("hints", []) if h.get("kind") in ("static", "dynamic") and h["cand"].get("t") != "unknown"]
+        hs += [{"kind": "mandatory", "vid": h["vid"], "prop": "", "edge": h["edge"], "cand": {"t": "all"}, "src": 0, "eid": 0} for h in o.get("prune", {}).get("hints", []) if h.get("kind") == "mandatory"]
+        for h in hs: h.setdefault("edge", "")
         seen_h = set(); uniq = []
         for h in hs:
             k = json.dumps(h, sort_keys=True)
@@ -262,6 +264,9 @@ def check_C04(tier, seed):
                 ge = {p["name"] for node, *_ in props.scopes(inst["q"]) for p in node["props"] for f in p["filters"] if f["op"] == ">=" and f["arg"]["k"] == "tag"}
                 c = d["hint"]["cand"]
                 if d["hint"]["prop"] in ge and ((c.get("t") == "range" and c["hi"]["t"] in ("inc", "exc")) or c.get("t") in ("single", "multiple", "impossible")): tg.add("ge_tag_dynamic_hint_excludes_value")
+            if d["hint"]["kind"] == "mandatory":
+                res.violation(f"edge {d['hint']['edge']!r} is reported as mandatory for vertex {d['hint']['vid']} although rows can exist without it (it is @optional, @recurse, or a @fold whose count filters admit 0) in query {inst['text']!r}",
+                              text="mandatory-hint-unsound", tags=tg, replay=props.replay_case(inst, None, hint=d["hint"], args=o["args"])); continue
             res.violation(f"the {d['hint']['kind']}ally required candidate {d['hint']['cand']} reported for property {d['hint']['prop']!r} of vertex {d['hint']['vid']} excludes the value {G.pretty(d['excluded'])}, which satisfies every filter on that property (tag values taken from the source vertex {d['hint'].get('src')}), in query {inst['text']!r} args {{{', '.join(k + '=' + G.pretty(a) for k, a in o['args'].items())}}}",
                           text="pruned-mismatch" if d["hint"]["kind"] == "dynamic" else "static-hint-unsound", tags=tg, replay=props.replay_case(inst, None, hint=d["hint"], excluded=d["excluded"], args=o["args"]))
     res.notes["hints_judged_for_soundness"] = nh
